@@ -278,6 +278,8 @@ def run(prog: Program, roots=None, prop="C14", rid_prefix="R-C14") -> Results:
     if cache_like or rts.node.decorator_list:
         res.add(f"{rid_prefix}-4", (rts.key, "resolver keeps state"), rts.loc(),
                 f"{rts.key} stores state on the document / is decorated: the resolved target set may be stale on a later access")
+    if prop in ("C14", "C13"):
+        mirrors_follow_values(prog, res, f"{rid_prefix}-13")
     if prop == "C14":
         from sa import lints as _lints
         r12 = res.rule(f"{rid_prefix}-12", "a list used as a manual stack is balanced: in a function that both appends to and pops from "
@@ -495,3 +497,64 @@ def order_accessor(prog: Program, res: Results, rid: str) -> None:
                 r.ob(ok, {"return": norm(v)[:50]})
                 if not ok:
                     res.add(rid, (f.key, "accessor returns something else"), f.loc(n.ast), f"{f.key} returns `{norm(v)[:50]}`, not the state's attrpath_order")
+
+
+def mirrors_follow_values(prog: Program, res: Results, rid: str) -> None:
+    """any per-set structure that remembers bindings of `values` (an order list, a by-name index, …) must be maintained by
+    every method of the class that adds to or removes from `values`; a method that forgets one leaves it stale"""
+    from sa.util import callee
+    r = res.rule(rid, "every structure of a mapping class that remembers bindings of its binding list is maintained by every method "
+                 "that adds to or removes from that list: a by-name index or cache written in one mutator is also written (or "
+                 "cleared) in all the others", floor=2)
+    MUT = {"append", "remove", "insert", "pop", "clear", "extend"}
+    for cname, container in (("AttributeSet", "values"), ("LetExpression", "local_variables")):
+        c = prog.classes.get(cname)
+        if c is None:
+            continue
+        methods = [m for m in c.methods.values() if m.kind == "method" and m.name not in ("from_cst", "from_dict", "rebuild", "__post_init__", "__init__")]
+
+        def writes(m, fld):
+            out = []
+            for n in ast.walk(m.node):
+                if isinstance(n, ast.Call) and isinstance(n.func, ast.Attribute) and n.func.attr in (MUT | {"update", "setdefault", "__setitem__", "add", "discard"}) \
+                        and norm(n.func.value) == f"self.{fld}":
+                    out.append(n)
+                elif isinstance(n, (ast.Assign, ast.AugAssign, ast.Delete)):
+                    tg = n.targets if isinstance(n, (ast.Assign, ast.Delete)) else [n.target]
+                    for t in tg:
+                        if isinstance(t, ast.Subscript) and norm(t.value) == f"self.{fld}":
+                            out.append(n)
+                        elif isinstance(t, ast.Attribute) and norm(t) == f"self.{fld}" and not isinstance(n, ast.Delete):
+                            out.append(n)
+            return out
+
+        mutators = [m for m in methods if writes(m, container)]
+        # mirror candidates: other fields of the class into which a method stores something while it also reads/writes the container
+        fields = [f_ for f_ in prog.fields(cname) if f_ != container]
+        for fld in fields:
+            writers = [m for m in methods if writes(m, fld)]
+            if not writers:
+                continue
+            # does the field hold bindings?  (stored values are locals that also go into / come from the container)
+            holds = False
+            for m in writers:
+                for w in writes(m, fld):
+                    names = {x.id for x in ast.walk(w) if isinstance(x, ast.Name)}
+                    for x in ast.walk(m.node):
+                        if isinstance(x, ast.Call) and isinstance(x.func, ast.Attribute) and x.func.attr in ("append", "insert") \
+                                and norm(x.func.value) == f"self.{container}" and any(isinstance(a, ast.Name) and a.id in names for a in x.args):
+                            holds = True
+                        if isinstance(x, ast.For) and norm(x.iter) == f"self.{container}" and any(
+                                isinstance(t, ast.Name) and t.id in names for t in ast.walk(x.target)):
+                            holds = True
+            if not holds:
+                continue
+            for m in mutators:
+                r.instances += 1
+                ok = bool(writes(m, fld))
+                r.ob(ok, {"class": cname, "mirror": fld, "mutator": m.key, "maintains": ok})
+                if not ok:
+                    res.add(rid, (m.key, "mutator does not maintain a structure that remembers bindings", fld), m.loc(),
+                            f"{m.key} changes `self.{container}` but never touches `self.{fld}`, which {', '.join(w.key for w in writers)[:80]} fill "
+                            f"with bindings of that list: after `del s[k]` the remembered binding is still found, so `s[k] = v` updates the "
+                            f"detached binding and the key never reappears in the text")
